@@ -46,8 +46,8 @@ def catalogue():
 CAT = catalogue()
 # reduced catalogue for the middle event of depth-3 sequences: the state-changing representatives (events after a shutdown are
 # not applied, so shutdown is never a middle event)
-CAT2 = [("resp", "A", "own", 0, 0), ("resp", "A", "own", 1, 0), ("resp", "A", "own", 2, 0), ("resp", "never", "own", 0, 0),
-        ("resp", "A", "otherport", 0, 0), ("rst", "A"), ("rst", "B"), ("eack", "A"), ("eack", "B"), ("dup",), ("err", 0), ("err", 1),
+CAT2 = [("resp", "A", "own", 0, 0), ("resp", "A", "own", 2, 0), ("resp", "never", "own", 0, 0),
+        ("resp", "A", "otherport", 0, 0), ("rst", "A"), ("eack", "A"), ("dup",), ("err", 0),
         ("timer",), ("cancelled-early", 0), ("followup", 0)]
 assert all(c in CAT for c in CAT2)
 
